@@ -69,6 +69,26 @@ def gen_cases(tier, seed):
                             "reply": "ok"})
                 ops.append({"name": "identify_nc", "reply": "ok"})
         cases.append({"ident": ident, "nid": nid, "ops": ops})
+    # a fast scan that finds nobody (the only device present is a configured one, which does not take part),
+    # then services of the same master object against that device
+    for _ in range(6 if tier == "quick" else 80):
+        ident = [rng.getrandbits(32) for _ in range(4)]
+        ops = [{"name": "fast_scan"}]
+        for _ in range(10):
+            name = rng.choice(["configure_node_id", "configure_bit_timing", "store", "inquire_node_id", "inquire_address",
+                               "switch_selective", "switch_global"])
+            op = {"name": name, "reply": rng.choice(["ok", "ok", "ok", "silence", "err:1"])}
+            if name in ("configure_node_id", "configure_bit_timing"):
+                op["args"] = [rng.randrange(256)]
+            elif name == "switch_global":
+                op["args"] = [rng.choice([0, 1])]
+            elif name == "inquire_address":
+                op["args"] = [rng.choice([0x5A, 0x5B, 0x5C, 0x5D])]
+            elif name == "switch_selective":
+                op["ids"] = ident
+                op["reply"] = "ok"
+            ops.append(op)
+        cases.append({"ident": ident, "nid": rng.choice([5, 1, 127]), "ops": ops})
     # selective switch and identity inquiry for boundary identities (all-one, all-zero, single parts all-one)
     for ident in ([0xFFFFFFFF] * 4, [0] * 4, [0xFFFFFFFF, 1, 2, 3], [1, 0xFFFFFFFF, 0x80000000, 0x7FFFFFFF],
                   [0xFF000000, 0x00FF0000, 0x0000FF00, 0x000000FF], [rng.getrandbits(32) | 0xFF000000 for _ in range(4)]):
